@@ -267,6 +267,7 @@ func c03(r *lp.Run) {
 	if discarded*10 > nSpecs {
 		r.Fail(lp.PropFail{Property: "C03", What: "more than 10% of the random schema specs are refused by the generator", Input: discarded, Observed: fmt.Sprint(discarded), Expected: "rare refusals"})
 	}
+	codecPkgs := c03CodecAdd(r, r.Rng.Fork(303), mod)
 	bin, err := mod.Build()
 	if err != nil {
 		r.Fail(lp.PropFail{Property: "C02", What: "generated packages do not compile", Input: "schema specs", Observed: err.Error(), Expected: "compiles"})
@@ -282,6 +283,7 @@ func c03(r *lp.Run) {
 			c03Op(r, drv, b, op)
 		}
 	}
+	c03Codec(r, r.Rng.Fork(304), drv, codecPkgs)
 }
 
 func trunc200(s string) string {
